@@ -62,6 +62,10 @@ pub struct WRunSpec {
     pub hist: i32,
     pub frag: usize,
     pub acts: Vec<WAct>,
+    /// readers 1 and 2 are endpoints of ONE remote participant: whatever arrives there with reader id UNKNOWN is handed to
+    /// both of them by the receiving MessageReceiver (if both are matched with the writer)
+    #[serde(default)]
+    pub shared: bool,
 }
 
 pub const WRITER_GUID: [u8; 16] = [0xC1, 0xC1, 0xC1, 0xC1, 0xC1, 0xC1, 0xC1, 0xC1, 0xC1, 0xC1, 0xC1, 0xC1, 0, 0, 9, 0x02];
@@ -96,6 +100,8 @@ pub struct WExec {
     pub written: HashMap<i64, Vec<u8>>, // sn -> full payload incl. encapsulation header
     pub acknack_count: HashMap<u8, i32>,
     pub captured: Vec<Vec<u8>>,
+    pub shared: bool,
+    pub matched: std::collections::HashSet<u8>,
 }
 
 fn eq_up_to_padding(got: &[u8], want: &[u8]) -> bool {
@@ -110,10 +116,14 @@ impl WExec {
             let port: u16 = s.dest.rsplit(':').next().and_then(|p| p.parse().ok()).unwrap_or(0);
             let to = if port > PORT0 && port < PORT0 + 10 { (port - PORT0) as i64 } else { 0 };
             let mut subs = vec![];
+            // sample-carrying submessages that do not name their reader: the sibling endpoint receives them too
+            let mut fan_out = vec![];
             match wire::decode(&s.bytes) {
                 Err(e) => subs.push(json!({"k":"UNDECODABLE","err":e})),
                 Ok(m) => {
                     for sub in m.subs {
+                        let unnamed = matches!(&sub, Sub::Data { reader, .. } | Sub::DataFrag { reader, .. } if *reader == [0, 0, 0, 0]);
+                        let before = subs.len();
                         match sub {
                             Sub::Data { sn, payload, .. } => {
                                 let p = payload.unwrap_or_default();
@@ -145,10 +155,19 @@ impl WExec {
                             }
                             _ => {}
                         }
+                        if unnamed && subs.len() > before {
+                            fan_out.push(subs[before].clone());
+                        }
                     }
                 }
             }
             out.push(json!({"to":to,"subs":subs}));
+            if self.shared && (to == 1 || to == 2) && !fan_out.is_empty() {
+                let sibling = 3 - to;
+                if self.matched.contains(&(sibling as u8)) && self.matched.contains(&(to as u8)) {
+                    out.push(json!({"to":sibling,"subs":fan_out}));
+                }
+            }
         }
         out
     }
@@ -179,10 +198,14 @@ impl WExec {
                     _ => {}
                 }
                 self.rig.match_reader_with_qos(reader_guid(*r), &b.build(), PORT0 + *r as u16);
+                if self.rig.proxy(reader_guid(*r)).present {
+                    self.matched.insert(*r);
+                }
                 self.common(json!({"ev":"Match","r":r,"kind":kind,"rtl":rdur == "tl","rdur":rdur}), &[], out);
             }
             WAct::Lose { r } => {
                 self.rig.lose_reader(reader_guid(*r));
+                self.matched.remove(r);
                 self.acknack_count.remove(r);
                 self.common(json!({"ev":"Lose","r":r}), &[], out);
             }
@@ -317,7 +340,7 @@ pub fn run_one(run_no: usize, spec: &WRunSpec, out: &mut Vec<Value>) -> Vec<Vec<
         frag_size: Some(spec.frag),
     };
     let rig = WriterRig::new(&cfg, WRITER_GUID);
-    let mut ex = WExec { rig, frag: spec.frag, written: HashMap::new(), acknack_count: HashMap::new(), captured: vec![] };
+    let mut ex = WExec { rig, frag: spec.frag, written: HashMap::new(), acknack_count: HashMap::new(), captured: vec![], shared: spec.shared, matched: Default::default() };
     out.push(json!({"ev":"Reset","run":run_no,"rel":spec.rel,"vol":spec.tl == Some(false),"depth":depth_limit(spec.hist)}));
     for a in &spec.acts {
         ex.step(a, out);
@@ -408,7 +431,7 @@ pub fn random_run(rng: &mut StdRng, n_events: usize) -> WRunSpec {
         acts.push(WAct::RepairAll { r });
     }
     acts.push(WAct::Clean);
-    WRunSpec { rel, tl, hist, frag, acts }
+    WRunSpec { rel, tl, hist, frag, acts, shared: rng.gen_bool(0.4) }
 }
 
 pub fn random_specs(seed: u64, runs: usize, events: usize) -> Vec<WRunSpec> {
@@ -447,7 +470,7 @@ pub fn hostile_specs(seed: u64, runs: usize) -> Vec<WRunSpec> {
         acts.push(WAct::Clean);
         acts.push(WAct::Wait);
         acts.push(WAct::HBTick);
-        out.push(WRunSpec { rel: true, tl: Some(true), hist: 2, frag: 64, acts });
+        out.push(WRunSpec { rel: true, tl: Some(true), hist: 2, frag: 64, acts, shared: false });
     }
     out
 }
